@@ -123,7 +123,7 @@ AlgoBegin == Is("AlgoBegin") /\ fails' = {} /\ l' = l + 1
 \* an execution that died: memory error, abort or hang inside the algorithm
 BadFate == /\ (Is("Abort") \/ Is("Sanitizer") \/ Is("Timeout"))
            /\ fails' = {F(IF Ev.scen = "t1d" THEN "C14" ELSE IF Ev.scen = "transport" THEN "C13" ELSE IF Ev.scen = "density" THEN "C16" ELSE IF Ev.scen = "netw" THEN "C17" ELSE "C12",
-                          <<Ev.e, Ev.stderr>>, Ev.scen \o "-fate")}
+                          <<Ev.e, Ev.stderr>>, IF Ev.e = "Timeout" THEN "timeout-" \o Ev.hang ELSE Ev.scen \o "-fate")}
            /\ l' = l + 1
 
 Next == NetTie \/ NetBuild \/ DetRes \/ RowHist \/ Transport \/ T1d \/ Hier \/ NetSolve \/ NetScale \/ AlgoBegin \/ BadFate
